@@ -177,6 +177,90 @@ Definition child_min (filt : list bool) (d : sdset) : fv := nanmin_l (select fil
 Definition child_max (filt : list bool) (d : sdset) : fv := nanmax_l (select filt (d_vals d)).
 Definition child_mean (filt : list bool) (d : sdset) : mv := nanmean_l (select filt (d_vals d)).
 
+(* ---- the feature object of a hierarchy child across refreshes -------------------- *)
+(* ChildScalar keeps its array (_array) and its summaries (_ufunc_attrs) for
+   its whole life; the child's _events dict keeps the object until the child
+   is refreshed (apply_filter clears _events). The array is taken from the
+   parent with the parent's filter as applied at the first access. *)
+Record cobj := { o_arr : option (list fv); o_min : option fv; o_max : option fv;
+                 o_mean : option mv }.
+Record hstate := {
+  h_vals : list fv;          (* the parent's feature values *)
+  h_filt : list bool;        (* the parent's filter, as applied *)
+  h_obj : option cobj;       (* child._events[feat] *)
+  h_changed : bool           (* the parent's filter changed since the last refresh *)
+}.
+Definition hinit (vals : list fv) : hstate :=
+  {| h_vals := vals; h_filt := map (fun _ => true) vals; h_obj := None; h_changed := false |}.
+
+Inductive qres := QF (v : fv) | QM (m : mv).
+Inductive hop :=
+| HFilter (filt : list bool)    (* parent: new filter, apply_filter() *)
+| HRefresh                      (* child.rejuvenate() *)
+| HQuery (which : Z).           (* child[feat].min() / .max() / .mean() *)
+
+Definition new_cobj : cobj := {| o_arr := None; o_min := None; o_max := None; o_mean := None |}.
+
+(* child[feat].<which>(): the result and the object left in _events *)
+Definition hquery (s : hstate) (which : Z) : qres * cobj :=
+  let o := match h_obj s with Some o => o | None => new_cobj end in
+  let arr := match o_arr o with Some a => a | None => select (h_filt s) (h_vals s) end in
+  if which =? 0 then
+    match o_min o with
+    | Some v => (QF v, o)
+    | None => (QF (nanmin_l arr),
+               {| o_arr := Some arr; o_min := Some (nanmin_l arr); o_max := o_max o;
+                  o_mean := o_mean o |})
+    end
+  else if which =? 1 then
+    match o_max o with
+    | Some v => (QF v, o)
+    | None => (QF (nanmax_l arr),
+               {| o_arr := Some arr; o_min := o_min o; o_max := Some (nanmax_l arr);
+                  o_mean := o_mean o |})
+    end
+  else
+    match o_mean o with
+    | Some m => (QM m, o)
+    | None => (QM (nanmean_l arr),
+               {| o_arr := Some arr; o_min := o_min o; o_max := o_max o;
+                  o_mean := Some (nanmean_l arr) |})
+    end.
+
+Definition hstep (s : hstate) (o : hop) : hstate :=
+  match o with
+  | HFilter f => {| h_vals := h_vals s; h_filt := f; h_obj := h_obj s; h_changed := true |}
+  | HRefresh => {| h_vals := h_vals s; h_filt := h_filt s; h_obj := None; h_changed := false |}
+  | HQuery w => {| h_vals := h_vals s; h_filt := h_filt s; h_obj := Some (snd (hquery s w));
+                   h_changed := h_changed s |}
+  end.
+Definition hrun (s : hstate) (ops : list hop) : hstate := fold_left hstep ops s.
+
+(* what the summaries of the child should be *)
+Definition spec_q (filt : list bool) (vals : list fv) (which : Z) : qres :=
+  let sel := select filt vals in
+  if which =? 0 then QF (nanmin_l sel) else if which =? 1 then QF (nanmax_l sel)
+  else QM (nanmean_l sel).
+
+(* the queries of a history with a flag: made while the child was up to date *)
+Fixpoint hrun_out (s : hstate) (ops : list hop) : list (bool * qres) :=
+  match ops with
+  | [] => []
+  | HQuery w :: r => (negb (h_changed s), fst (hquery s w)) :: hrun_out (hstep s (HQuery w)) r
+  | o :: r => hrun_out (hstep s o) r
+  end.
+
+(* ---- features of mapped basins (BasinProxyFeature) --------------------------------- *)
+(* the events of the basin selected by the basinmap; the summaries are
+   computed from them (the attributes stored in the basin file describe all
+   of its events and are not used) *)
+Definition mapped (bm : list Z) (vals : list fv) : list fv :=
+  map (fun i => nth (Z.to_nat i) vals NaN) bm.
+Definition basin_q (bm : list Z) (d : sdset) (which : Z) : qres :=
+  let sel := mapped bm (d_vals d) in
+  if which =? 0 then QF (nanmin_l sel) else if which =? 1 then QF (nanmax_l sel)
+  else QM (nanmean_l sel).
+
 (* ---- specification --------------------------------------------------------------- *)
 (* the values of the feature after a history *)
 Fixpoint spec_vals (m : Z) (acc : list fv) (ops : list op) : list fv :=
@@ -212,8 +296,15 @@ Definition enc_fv (v : fv) : list Z :=
 Definition enc_mv (m : mv) : list Z :=
   match m with MFin p q => [0; p; q] | MNaN => [1; 0; 0] | MPInf => [2; 0; 0] | MNInf => [3; 0; 0] end.
 
-(* reported min, max, mean of the final dataset, and of a hierarchy child
-   that keeps every second event *)
+Definition enc_q (q : qres) : list Z :=
+  match q with QF v => enc_fv v | QM m => enc_mv m end.
+
+(* the basin map used by the check: events i with i mod 3 <> 1 *)
+Definition basin_map_of (n : nat) : list Z :=
+  filter (fun i => negb (i mod 3 =? 1)) (map Z.of_nat (seq 0 n)).
+
+(* reported min, max, mean of the final dataset, of a hierarchy child that
+   keeps every second event, and of the feature seen through a mapped basin *)
 Definition run_flat (tops : list (Z * Z * list (Z * Z))) : list Z :=
   match ds (run init (map dec_op tops)) with
   | None => [-1]
@@ -221,4 +312,17 @@ Definition run_flat (tops : list (Z * Z * list (Z * Z))) : list Z :=
       let filt := map (fun i => Nat.even i) (seq 0 (length (d_vals d))) in
       Z.of_nat (length (d_vals d)) :: enc_fv (rep_min d) ++ enc_fv (rep_max d) ++ enc_mv (rep_mean d)
       ++ enc_fv (child_min filt d) ++ enc_fv (child_max filt d) ++ enc_mv (child_mean filt d)
+      ++ flat_map (fun w => enc_q (basin_q (basin_map_of (length (d_vals d))) d w)) [0; 1; 2]
   end.
+
+(* child histories: (tag, payload): 0 filter (payload: 0/1 per event),
+   1 refresh, 2 query (payload: [which]) *)
+Definition dec_hop (t : Z * list Z) : hop :=
+  let '(tag, p) := t in
+  if tag =? 0 then HFilter (map (fun b => negb (b =? 0)) p)
+  else if tag =? 1 then HRefresh else HQuery (hd 0 p).
+
+Definition child_flat (case : list (Z * Z) * list (Z * list Z)) : list Z :=
+  let '(vals, tops) := case in
+  flat_map (fun r : bool * qres => (if fst r then 1 else 0) :: enc_q (snd r))
+           (hrun_out (hinit (map dec vals)) (map dec_hop tops)).
